@@ -461,7 +461,7 @@ ServerReadShapes(v, resumed) ==
   ELSE IF resumed THEN { <<1, 20>> } ELSE { <<1, 16, 20>> }
 Drift24(o) ==
   LET b == o.obs IN
-  IF o.down # 0 \/ ~(b.cdone /\ b.sdone) \/ ~Known(b.csuite) THEN "ok"
+  IF o.id < 0 \/ o.down # 0 \/ ~(b.cdone /\ b.sdone) \/ ~Known(b.csuite) THEN "ok"     \* id < 0: the driver's self-test copies
   ELSE IF (IF b.cvers = 13 THEN StripTickets(b.ctypes) ELSE b.ctypes) \notin ClientReadShapes(b.cvers, b.csuite, b.cres)
        THEN "client-message-sequence"
   ELSE IF b.stypes \notin ServerReadShapes(b.svers, b.sres) THEN "server-message-sequence"
